@@ -72,13 +72,38 @@ def ensure_noncontrol(spec):
     return spec
 
 
+def _special_values(rng, arr):
+    """Parameter tables are not always dense draws from a continuous law: thresholded / zero-padded / freshly reset
+    tables hold EXACT zeros (scattered, in the last row, a whole row or column), negative zeros and repeated values."""
+    mode = int(rng.integers(0, 10))
+    a = np.array(arr, dtype=float)
+    if a.size == 0 or mode < 6:
+        return a
+    if mode == 6:
+        a[rng.random(a.shape) < 0.3] = 0.0
+    elif mode == 7:
+        last = a[-1:].reshape(-1)
+        if last.size > 1:
+            last[: max(1, last.size // 2)] = 0.0
+        else:
+            last[:] = 0.0
+        a[-1:] = last.reshape(a[-1:].shape)
+    elif mode == 8:
+        a[int(rng.integers(0, a.shape[0]))] = 0.0
+        if a.ndim == 2:
+            a[:, int(rng.integers(0, a.shape[1]))] = -0.0
+    else:
+        a[...] = a.reshape(-1)[0]
+    return a
+
+
 def make_sdc_theta(rng, n_samp, n_treat, D, scale=1.0, precision=None):
     from batchie.models.sparse_combo import SparseDrugComboMCMCSample
 
     return SparseDrugComboMCMCSample(
-        W=rng.normal(0, scale, (n_samp, D)), W0=rng.normal(0, scale, (n_samp,)),
-        V2=rng.normal(0, scale, (n_treat, D)), V1=rng.normal(0, scale, (n_treat, D)),
-        V0=rng.normal(0, scale, (n_treat,)), alpha=float(rng.normal(0, scale)),
+        W=_special_values(rng, rng.normal(0, scale, (n_samp, D))), W0=_special_values(rng, rng.normal(0, scale, (n_samp,))),
+        V2=_special_values(rng, rng.normal(0, scale, (n_treat, D))), V1=_special_values(rng, rng.normal(0, scale, (n_treat, D))),
+        V0=_special_values(rng, rng.normal(0, scale, (n_treat,))), alpha=float(rng.normal(0, scale)),
         precision=float(precision if precision is not None else 10 ** rng.uniform(-3, 3)))
 
 
@@ -86,7 +111,7 @@ def make_sdci_theta(rng, n_samp, n_treat, D, lookup, scale=1.0, precision=None):
     from batchie.models.sparse_combo_interaction import SparseDrugComboInteractionMCMCSample
 
     return SparseDrugComboInteractionMCMCSample(
-        W=rng.normal(0, scale, (n_samp, D)), V2=rng.normal(0, scale, (n_treat, D)),
+        W=_special_values(rng, rng.normal(0, scale, (n_samp, D))), V2=_special_values(rng, rng.normal(0, scale, (n_treat, D))),
         precision=float(precision if precision is not None else 10 ** rng.uniform(-3, 3)),
         single_effect_lookup=lookup)
 
